@@ -838,15 +838,28 @@ Qed.
 
 (* Tar() fed with the walk of a tree writes the elements of tar_tree: the reconstruction of the
    nesting from the flat event stream (fsBufReader, path.Dir(f.Path) == dir) is right *)
-Theorem tar_events_walk t : wf_tree t -> tar_events (walk [] [] t) = tar_tree [] [] t.
+Theorem tar_events_with_walk check t : wf_tree t -> tar_events_with check (walk [] [] t) = tar_tree [] [] t.
 Proof.
-  intros Hwf. unfold tar_events.
+  intros Hwf. unfold tar_events_with.
   assert (Hw : walk [] [] t = event_of [] [] t :: (match t with TDir _ ch => walk_kids [] ch | _ => [] end ++ []))
     by (rewrite app_nil_r; destruct t; reflexivity).
   pose proof (walk_length t [] []) as Hl. rewrite Hw in Hl. rewrite Hw. cbv beta iota. rewrite Hl.
   assert (Hf : (2 * tsize t <= 2 * tsize t + 2)%nat) by lia.
   rewrite (ev_goal_all t [] [] [] _ Hwf I Hf).
-  destruct (tar_tree [] [] t); reflexivity.
+  destruct (tar_tree [] [] t); [|reflexivity]. rewrite andb_false_r. reflexivity.
+Qed.
+
+Theorem tar_events_walk t : wf_tree t -> tar_events (walk [] [] t) = tar_tree [] [] t.
+Proof. apply tar_events_with_walk. Qed.
+
+(* Tar as it is after the fix: when it succeeds, the source was read to its end -- nothing is
+   dropped silently *)
+Theorem tar_events_checked_complete f rest els :
+  tar_events_with true (f :: rest) = Some els ->
+  tar_ev (2 * length (f :: rest) + 2) f rest = Some (els, []).
+Proof.
+  unfold tar_events_with. destruct (tar_ev _ f rest) as [[e l]|]; [|discriminate].
+  destruct l; cbn [andb negb]; [intros H; inversion H; reflexivity|discriminate].
 Qed.
 
 (* ---------- Part 4: the listing order of the xattr keys does not matter ---------- *)
@@ -967,4 +980,50 @@ Proof.
   destruct c as [a1 ch1|a1 d1|a1 t1|a1 r1|a1]; cbn [archived app flat_map];
     rewrite ?(IHr Hr); try reflexivity.
   - rewrite <- (Hc (p ++ [nm])). reflexivity.
+Qed.
+
+(* ---------- a tar stream that is not grouped by directory ---------- *)
+
+(* ./  d0/  f1  d0/f0 : the member d0/f0 comes after a member of the parent directory *)
+Definition ungrouped_stream : list file_event :=
+  let dirm := stat_to_filemode 16877 in
+  let filem := stat_to_filemode 33188 in
+  [ mkEvent [46] [] dirm 0 [] 1000 0 0 0 0 [] [];
+    mkEvent [100; 48] [[100; 48]] dirm 0 [] 1000 0 0 0 0 [] [];
+    mkEvent [102; 49] [[102; 49]] filem 1 [] 1000 0 0 0 0 [] [7];
+    mkEvent [102; 48] [[100; 48]; [102; 48]] filem 1 [] 1000 0 0 0 0 [] [8] ].
+
+Definition node_paths (ns : list node) : list (list bytes) :=
+  map (fun n => match n with NDirectory p _ _ | NFile p _ _ _ _ | NSymlink p _ _ _ | NDevice p _ _ _ _ => p end) ns.
+
+(* what Tar without the check and the archive decoder make of the stream: the paths of the
+   decoded nodes and the bytes left over *)
+Definition ungrouped_result : option (list (list bytes) * bytes) :=
+  match tar_events_with false ungrouped_stream with
+  | Some els => match decode_archive (encode_elems els) with
+                | Ok (ns, r) => Some (node_paths ns, r)
+                | _ => None
+                end
+  | None => None
+  end.
+
+Lemma ungrouped_result_eq : ungrouped_result = Some ([[]; [[100; 48]]; [[102; 49]]], []).
+Proof. vm_compute. reflexivity. Qed.
+
+(* Without the check Tar succeeds and the archive decodes to three of the four members:
+   d0/f0 is gone.  With the check Tar fails. *)
+Lemma tarin_ungrouped :
+  (exists els ns, tar_events_with false ungrouped_stream = Some els /\
+                  decode_archive (encode_elems els) = Ok (ns, []) /\
+                  node_paths ns = [[]; [[100; 48]]; [[102; 49]]] /\
+                  ~ In [[100; 48]; [102; 48]] (node_paths ns)) /\
+  tar_events_with true ungrouped_stream = None.
+Proof.
+  split; [|vm_compute; reflexivity].
+  pose proof ungrouped_result_eq as R. unfold ungrouped_result in R.
+  destruct (tar_events_with false ungrouped_stream) as [els|]; [|discriminate].
+  destruct (decode_archive (encode_elems els)) as [[ns rest]|e|p] eqn:D; try discriminate.
+  injection R as Hp Hr. subst rest. exists els, ns.
+  split; [reflexivity|]. split; [exact D|]. split; [exact Hp|].
+  intros Hin. rewrite Hp in Hin. destruct Hin as [H|[H|[H|[]]]]; discriminate.
 Qed.
